@@ -160,13 +160,31 @@ class Splitter:
         def _is_escaped():
             return currently_quote_escaped or num_open_curls > 0
 
+        # Curly brackets nest inside a quoted value as well, and a quote
+        #   within such brackets does not end the quoted value.
+        num_open_curls_in_quotes = 0
+
         # iterate over marks until we find end of field
         while True:
             next_mark = self._next_mark(accept_eof=False)
 
             # Handle "escape" characters
-            if next_mark.group(0) == '"' and not num_open_curls > 0:
+            if (
+                next_mark.group(0) == '"'
+                and not num_open_curls > 0
+                and not num_open_curls_in_quotes > 0
+            ):
                 currently_quote_escaped = not currently_quote_escaped
+                continue
+            elif next_mark.group(0) == "{" and currently_quote_escaped:
+                num_open_curls_in_quotes += 1
+                continue
+            elif (
+                next_mark.group(0) == "}"
+                and currently_quote_escaped
+                and num_open_curls_in_quotes > 0
+            ):
+                num_open_curls_in_quotes -= 1
                 continue
             elif next_mark.group(0) == "{" and not currently_quote_escaped:
                 num_open_curls += 1
